@@ -1233,10 +1233,17 @@ func c09ScaleSub() *engine.Sub {
 // c09HangHandler: for C09 "always terminates" is part of the property, so a case that does not come
 // back is a violation (reported from the watchdog; the process cannot continue past a hung goroutine).
 func c09HangHandler(sub *engine.Sub, caseJSON string, limit time.Duration) {
+	// Slow is not hung: the verdict needs the two-stage confirmation of engine.ConfirmHang (a fresh process that
+	// runs the case alone, then three times the limit on the monotonic clock in this process).
+	confirmed, how := engine.ConfirmHang("C09", sub, caseJSON, limit)
+	if !confirmed {
+		fmt.Fprintf(os.Stderr, "note: case %s of sub-check %s took longer than %s but came back (slow run, not a hang)\n", caseJSON, sub.Name, limit)
+		return
+	}
 	dir := filepath.Join(engine.OutDir(), "replays", "C09")
 	os.MkdirAll(dir, 0o755)
 	path := filepath.Join(dir, "does-not-terminate-"+strings.ReplaceAll(sub.Name, "/", "_")+".json")
-	body := fmt.Sprintf("{\n \"property\": \"C09\",\n \"sub\": %q,\n \"class\": \"does-not-terminate\",\n \"msg\": \"the case did not return within %s; it may depend on the calls that preceded it in this run (re-run the sub-check to reproduce)\",\n \"history_dependent\": true,\n \"case\": %s\n}\n", sub.Name, limit, caseJSON)
+	body := fmt.Sprintf("{\n \"property\": \"C09\",\n \"sub\": %q,\n \"class\": \"does-not-terminate\",\n \"msg\": %q,\n \"history_dependent\": %v,\n \"case\": %s\n}\n", sub.Name, fmt.Sprintf("the case did not return within %s; %s", limit, how), strings.Contains(how, "preceded"), caseJSON)
 	os.WriteFile(path, []byte(body), 0o644)
 	fmt.Printf("  violation class=does-not-terminate sub=%s: case %s did not return within %s\n", sub.Name, caseJSON, limit)
 	fmt.Printf("VIOLATION property=C09 replay=%s\n", path)
